@@ -122,11 +122,23 @@ def image_sizes(ctx):
 WIDE = [255, 256, 257, 1023, 1024, 1025, 4095, 4096, 4097, 8191, 8193, 16385]
 
 
-def wide_sizes(ctx):
+def wide_sizes(ctx, fmt):
+    """widths at powers of two +-1 up to 2^15, heights 1..3 (and the transposed shapes), plus, per writer, the widths at which
+    one output row reaches 2^14 .. 2^16 BYTES (2^17, 2^18 in thorough): where a buffer strategy would switch"""
     s = [(w, h) for w in WIDE for h in (1, 2, 3)] + [(1 + k % 3, n) for k, n in enumerate(WIDE)]
+    s += [(32767, 1), (32769, 1)]
+    csize, ncomp = FMT[fmt][2], FMT[fmt][3]
+    for t in (14, 15, 16) + ((17, 18) if ctx.thorough() else ()):
+        w = (1 << t) // (csize * ncomp)
+        s += [(w, 1), (w + 1, 1), (w + 1, 2)]
     if ctx.thorough():
         s += [(w, h) for w in (2047, 2049, 16383, 16384) for h in (1, 2)] + [(3, 16384), (257, 255), (1025, 17)]
-    return s
+    seen, out = set(), []
+    for x in s:
+        if x not in seen:
+            seen.add(x)
+            out.append(x)
+    return out
 
 
 def run_images(ctx, model, exe):
@@ -135,9 +147,9 @@ def run_images(ctx, model, exe):
     shutil.rmtree(outroot, ignore_errors=True)
     os.makedirs(outroot)
     nwide = {}
-    wsizes = wide_sizes(ctx)
-    wseeds = {fmt: [r.randrange(1 << 16) for _ in wsizes] for fmt in FMT}
-    wlines = {fmt: ["%d %d %d" % (w, h, sd) for (w, h), sd in zip(wsizes, wseeds[fmt])] for fmt in FMT}
+    wsz = {fmt: wide_sizes(ctx, fmt) for fmt in FMT}
+    wseeds = {fmt: [r.randrange(1 << 16) for _ in wsz[fmt]] for fmt in FMT}
+    wlines = {fmt: ["%d %d %d" % (w, h, sd) for (w, h), sd in zip(wsz[fmt], wseeds[fmt])] for fmt in FMT}
 
     def run_model_wide(fmt):
         return ctx.run_exe("/bin/bash", ["-c", 'ulimit -s unlimited 2>/dev/null || ulimit -s 4000000; exec "$0" "$@"', model, "imgpat", fmt],
@@ -239,7 +251,7 @@ def run_images(ctx, model, exe):
     # bit patterns 0x3f800000 + seed + i), exact-size heap buffer under ASan, decoded and compared; model by digest
     for fmt in FMT:
         magic, scale, csize, ncomp, pixcomp, flip, sel = FMT[fmt]
-        seeds, lines = wseeds[fmt], wlines[fmt]
+        seeds, lines, wsizes = wseeds[fmt], wlines[fmt], wsz[fmt]
         od = os.path.join(outroot, "%s_wide" % fmt)
         os.makedirs(od, exist_ok=True)
         rc, out, err = ctx.run_exe(exe, ["imgpat", fmt, od], stdin="\n".join(lines) + "\n", timeout=600)
@@ -249,10 +261,14 @@ def run_images(ctx, model, exe):
         if rc != 0:
             k = len(got)
             w, h = wsizes[k] if k < len(wsizes) else (0, 0)
-            ctx.violation("%s(%dx%d) crashed / tripped a sanitizer on an exact-size buffer (rc=%d)" % (API[fmt], w, h, rc),
+            san = re.search(r"(ERROR: AddressSanitizer: \S+|runtime error: [^\n]*)", err)
+            acc = re.search(r"\n(READ|WRITE) of size \d+", err)
+            where = re.findall(r"#\d+ [^\n]* (\S*SaveImage\.h:\d+)", err)
+            ctx.violation("%s(%dx%d) crashed / tripped a sanitizer (rc=%d%s%s%s); the input buffer has exactly w*h pixels" % (
+                              API[fmt], w, h, rc, ": " + san.group(1) if san else "", ", " + acc.group(1) if acc else "", " at " + where[0] if where else ""),
                           {"api": API[fmt], "format": fmt, "w": w, "h": h, "seed": seeds[k] if k < len(seeds) else None,
                            "pixel_components": "pattern, see harness imgpat", "stderr_tail": err[-2500:],
-                           "required": "reads only indices < w*h*PIXEL_COMP", "rerun": "echo %s | %s imgpat %s %s" % (lines[k] if k < len(lines) else "", exe, fmt, od)})
+                           "required": "completes; reads only indices < w*h*PIXEL_COMP, writes only inside its own row buffer", "rerun": "echo %s | %s imgpat %s %s" % (lines[k] if k < len(lines) else "", exe, fmt, od)})
         worst = None
         digests = {}
         for k, path in enumerate(got):
@@ -267,7 +283,7 @@ def run_images(ctx, model, exe):
                     worst = (w * h, k, why, data, vals)
             else:
                 digests[k] = "%d %s" % (len(data), hashlib.md5(data).hexdigest())
-        pending.append((fmt, seeds, lines, digests))
+        pending.append((fmt, seeds, lines, digests, wsizes))
         if worst:
             _, k, why, data, vals = worst
             (w, h), sd = wsizes[k], seeds[k]
@@ -289,7 +305,7 @@ def run_images(ctx, model, exe):
                            "rerun": "echo %d %d %d | %s imgpat %s %s" % (w, h, sd, exe, fmt, od)})
     def finish_wide():
         """compare the digests of the wide files with the model's (collected late: the model runs overlap the trace part)"""
-        for (fmt, seeds, lines, digests) in pending:
+        for (fmt, seeds, lines, digests, wsizes) in pending:
             rcm, mout, merr = mfut[fmt].result()
             mlines = mout.split("\n")[:-1]
             if rcm != 0 or len(mlines) != len(lines):
@@ -302,7 +318,7 @@ def run_images(ctx, model, exe):
                     break
         pool.shutdown(wait=True)
     ctx.cov["wide_image_cases_per_format"] = nwide
-    ctx.cov["wide_image_sizes"] = ["%dx%d" % s for s in wsizes]
+    ctx.cov["wide_image_sizes"] = {fmt: ["%dx%d" % x for x in wsz[fmt]] for fmt in FMT}
     # ---- stack use: rows are small, the image is several times the thread's stack (the row scratch buffer is alloca'd)
     W, H, STACK = 64, 4096, 256 * 1024
     sd = os.path.join(outroot, "stack")
@@ -1042,8 +1058,20 @@ def run(ctx):
                 % (bad_facts, facts.get("notes"), json.dumps({k: facts.get(k) for k in ("img", "fmt", "tr")})[:2000]))
     ctx.cov["source_obligations_broken"] = bad_facts
     model = ctx.extract(snippets=["conv_N.ml"])
-    exe, exe_tsan = ctx.cxx_many([dict(sources=["harness.cpp"], out="harness", repo_sources=[], sanitize="asan"),
-                                  dict(sources=["harness.cpp"], out="harness_tsan", repo_sources=[], sanitize="tsan")])
+    # SaveImage.h / Tracing.cpp may call into other translation units of the library (memory/malloc.cpp, common.cpp ...): link what
+    # they plausibly need, and if a build still fails retry it once with a wider set - every build that can be made is run
+    base_src = ["rkcommon/memory/malloc.cpp"]
+    wide_src = base_src + ["rkcommon/common.cpp", "rkcommon/os/library.cpp", "rkcommon/os/FileName.cpp", "rkcommon/utility/demangle.cpp"]
+    base_src = [x for x in base_src if os.path.exists(os.path.join(ctx.repo, x))]
+    wide_src = [x for x in wide_src if os.path.exists(os.path.join(ctx.repo, x))]
+    exe, exe_tsan = ctx.cxx_many([dict(sources=["harness.cpp"], out="harness", repo_sources=base_src, sanitize="asan"),
+                                  dict(sources=["harness.cpp"], out="harness_tsan", repo_sources=base_src, sanitize="tsan")])
+    if exe is None:
+        ctx.broken[:] = [b for b in ctx.broken if b != "harness build harness"]
+        exe = ctx.cxx(["harness.cpp"], "harness", repo_sources=wide_src, sanitize="asan", libs=["-ldl"])
+    if exe_tsan is None:
+        ctx.broken[:] = [b for b in ctx.broken if b != "harness build harness_tsan"]
+        exe_tsan = ctx.cxx(["harness.cpp"], "harness_tsan", repo_sources=wide_src, sanitize="tsan", libs=["-ldl"])
     if not model or not exe:
         return
     finish_wide = run_images(ctx, model, exe)
